@@ -745,6 +745,32 @@ func runStandin(repo, name, tier string) (bool, string, string) {
 func runSeededSelftest(prop string) []string {
 	dirs, _ := filepath.Glob(filepath.Join(lockDir(), "seeded", prop+"-*"))
 	sort.Strings(dirs)
+	// every seed was run when it was confirmed (seeded/<id>/meta.json); a check run repeats the
+	// self-test for a bounded number of them: those that were missed at first come first
+	// (GOVC_SELFTEST_MAX, default 4; tools/selftest_all.sh runs all)
+	max := 4
+	if v, err := strconv.Atoi(os.Getenv("GOVC_SELFTEST_MAX")); err == nil && v >= 0 {
+		max = v
+	}
+	if len(dirs) > max {
+		var first, rest []string
+		for _, d := range dirs {
+			b, _ := os.ReadFile(filepath.Join(d, "meta.json"))
+			if strings.Contains(string(b), "caught_after_strengthening") {
+				first = append(first, d)
+			} else {
+				rest = append(rest, d)
+			}
+		}
+		// newest first within each group
+		sort.Sort(sort.Reverse(sort.StringSlice(first)))
+		sort.Sort(sort.Reverse(sort.StringSlice(rest)))
+		dirs = append(first, rest...)
+		if len(dirs) > max {
+			dirs = dirs[:max]
+		}
+		sort.Strings(dirs)
+	}
 	out := make([]string, len(dirs))
 	sem := make(chan struct{}, 3) // three scratch copies at a time
 	var wg sync.WaitGroup
